@@ -66,13 +66,15 @@ Proof.
   unfold sim_switch. destruct (select x nx) as [sx|e]; [|discriminate].
   destruct (select y ny) as [sy|e]; [|discriminate].
   destruct k; intros H.
-  - eapply keeps_trans; [apply with_tones_keeps | eapply (fold_a_keeps pick1 pick1_keeps); exact H].
+  - destruct (negb (tones_apart _)); [discriminate|].
+    eapply keeps_trans; [apply with_tones_keeps | eapply (fold_a_keeps pick1 pick1_keeps); exact H].
   - eapply keeps_trans; [apply with_tones_keeps | eapply (fold_a_keeps drop1 drop1_keeps); exact H].
 Qed.
 
 Lemma sim_waypoint_keeps st first nx ny w st' : sim_waypoint st first nx ny w = AOk st' -> keeps st st'.
 Proof.
   unfold sim_waypoint. destruct (negb _); [discriminate|]. destruct (_ && _ && _); [discriminate|].
+  destruct (negb (tones_apart _)); [discriminate|].
   intros H; inversion H; subst. apply with_tones_keeps.
 Qed.
 
@@ -141,4 +143,38 @@ Proof.
   assert (E : (length (fst w) =? nx) && (length (snd w) =? ny) = false).
   { apply andb_false_iff. destruct H as [H|H]; [left | right]; apply Nat.eqb_neq; exact H. }
   rewrite E. reflexivity.
+Qed.
+
+(* an accepted waypoint leaves the lit tones of each axis at pairwise different coordinates,
+   so no two tweezers share a spot *)
+Theorem accepted_waypoint_apart st first nx ny w st' :
+  sim_waypoint st first nx ny w = AOk st' -> tones_apart st' = true.
+Proof.
+  unfold sim_waypoint. destruct (negb _); [discriminate|]. destruct (_ && _ && _); [discriminate|].
+  destruct (tones_apart _) eqn:T; simpl; [|discriminate].
+  intros H; inversion H; subst. exact T.
+Qed.
+
+Lemma distinct_q_spec l : distinct_q l = true ->
+  forall i j : nat, (i < j)%nat -> (j < length l)%nat -> ~ Qeq (nth i l 0) (nth j l 0).
+Proof.
+  induction l as [|a r IH]; simpl; intros H i j Hij Hj; [inversion Hj|].
+  apply andb_true_iff in H. destruct H as [Hn Hd].
+  destruct j as [|j]; [inversion Hij|]. destruct i as [|i].
+  - intros E. apply negb_true_iff in Hn.
+    assert (X : existsb (Qeq_bool a) r = true).
+    { apply existsb_exists. exists (nth j r 0). split; [apply nth_In; apply Nat.succ_lt_mono; exact Hj | apply Qeq_bool_iff; exact E]. }
+    rewrite X in Hn. discriminate.
+  - apply IH; [exact Hd | apply Nat.succ_lt_mono; exact Hij | apply Nat.succ_lt_mono; exact Hj].
+Qed.
+
+Theorem tweezers_never_coincide st first nx ny w st' :
+  sim_waypoint st first nx ny w = AOk st' ->
+  (forall i j : nat, (i < j)%nat -> (j < length (xon st'))%nat -> ~ Qeq (nth i (map snd (xon st')) 0) (nth j (map snd (xon st')) 0)) /\
+  (forall i j : nat, (i < j)%nat -> (j < length (yon st'))%nat -> ~ Qeq (nth i (map snd (yon st')) 0) (nth j (map snd (yon st')) 0)).
+Proof.
+  intros H. apply accepted_waypoint_apart in H. unfold tones_apart in H. apply andb_true_iff in H.
+  destruct H as [Hx Hy]. split; intros i j Hij Hj.
+  - apply distinct_q_spec; [exact Hx | exact Hij | rewrite map_length; exact Hj].
+  - apply distinct_q_spec; [exact Hy | exact Hij | rewrite map_length; exact Hj].
 Qed.
